@@ -316,11 +316,23 @@ Ltac nats := change (Pos.to_nat 1) with 1%nat in *; change (Pos.to_nat 2) with 2
 Ltac lk := repeat match goal with H : lookup ?x ?e = _ |- context [lookup ?x ?e] => rewrite H; cbn end.
 Ltac dpairs := repeat match goal with p : (_ * _)%type |- _ => destruct p end.
 Ltac norm1 :=
-  first [ progress unfold lift_fst | progress unfold ovf | progress unfold test | progress lk
-        | progress rewrite ?len_map, ?len_nil, ?index_0, ?index_1, ?join_bytes_nil, ?repeat_list_0, ?zs_eqb_bytes_eqb, ?len_2 ].
+  first
+  [ match goal with |- context [lift_fst _ _] => unfold lift_fst end
+  | match goal with |- context [ovf _ _] => unfold ovf end
+  | match goal with |- context [test _ _ _] => unfold test end
+  | progress lk
+  | match goal with |- context [len (map _ _)] => rewrite !len_map end
+  | match goal with |- context [len nil] => rewrite !len_nil end
+  | match goal with |- context [index (_ :: _) 0] => rewrite !index_0 end
+  | match goal with |- context [index (_ :: _ :: _) 1] => rewrite !index_1 end
+  | match goal with |- context [join_bytes nil (map VB _)] => rewrite !join_bytes_nil end
+  | match goal with |- context [repeat_list _ (0 :: nil)] => rewrite !repeat_list_0 end
+  | match goal with |- context [zs_eqb _ _] => rewrite !zs_eqb_bytes_eqb end
+  | match goal with |- context [len (_ :: _ :: nil)] => rewrite !len_2 end ].
+Ltac nats' := match goal with |- context [Pos.to_nat _] => nats | _ => idtac end.
 Ltac tie1 :=
   try match goal with |- _ <> OutOfFuel -> _ => intro end;
-  dpairs; cbn; repeat (norm1; cbn); nats;
+  dpairs; cbn; repeat (norm1; cbn); nats';
   rewrite ?to_bytes_le_eq, ?to_bytes_be_eq, ?app_nil_r, <- ?app_assoc; try reflexivity.
 Ltac tie := repeat (tie1; first [dbind | dif | dand]); tie1.
 
